@@ -157,6 +157,41 @@ def run(entry, argv, spec, d, timeout=120):
     return p.returncode, p.stdout, p.stderr
 
 
+def device_full(col, case, d, r):
+    """the designated output is a device that accepts no data (/dev/full: every flush fails with ENOSPC, also the
+    one hidden in close()): a REAL failed write instead of an injected one - the run must not report success"""
+    if case["placeholder"] == "both_null" or case["mode"] == "driver":
+        return
+    entry, argv, output, pre = prepare(case, d, r)
+    sp = os.path.join(d, "spec.json")
+    with open(sp, "w") as f:
+        json.dump({}, f)
+    if "--out" in argv:
+        argv = [("/dev/full" if a == output else a) for a in argv]
+        stdout = subprocess.PIPE
+    else:
+        stdout = open("/dev/full", "wb")
+    feeder = None
+    if os.path.join(d, "base.fifo") in argv:
+        feeder = subprocess.Popen(["sh", "-c", "cat base.ipynb > base.fifo"], cwd=d, stdout=subprocess.DEVNULL, stderr=subprocess.DEVNULL)
+    try:
+        p = subprocess.run(launcher_cmd(entry, sp, argv), cwd=d, stdout=stdout, stderr=subprocess.PIPE, timeout=120)
+    except subprocess.TimeoutExpired:
+        col.inconc("device-full run timed out")
+        return
+    finally:
+        if feeder is not None:
+            feeder.kill()
+            feeder.wait()
+        if stdout is not subprocess.PIPE:
+            stdout.close()
+    col.eval()
+    col.mon("real_full_device")
+    col.count("real_full_device:" + case["mode"])
+    if p.returncode == 0:
+        col.violation("success-reported-although-output-device-full", "mode=%s argv=%s" % (case["mode"], argv[-6:]), dict(case, fault="device-full"), "never-report-success")
+
+
 def expected_from_dump(dump):
     import nbformat
     return json.loads(nbformat.writes(nbformat.from_dict(dump["merged"])))
@@ -484,6 +519,8 @@ def run_shard(spec):
         if case is None:
             continue
         ff = fault_free(col, case, d, r)
+        if ff and k % 5 == 1:
+            device_full(col, case, d, r)
         if ff and force:
             inject_all(col, case, d, r, ff)
             continue
